@@ -24,6 +24,7 @@ class FieldDef:
     default: str | None = None  # source of the default value
     compare: bool = True
     init: bool = True
+    extra_args: str = ""  # further field(...) arguments that do not change what the node *is* (hash=, repr=, metadata=)
     classes: tuple[str, ...] = ()  # for child fields: admissible classes ("Base" = any)
     fixed: tuple[tuple[str, ...], ...] = ()  # for kind == fixed: admissible classes per element
 
@@ -72,6 +73,10 @@ TABLE: list[ClassDef] = [
             FieldDef("ffs", "frozenset[frozenset[int]]", "fsfs", "frozenset()"),
             FieldDef("sk", "SKind", "senum", "SKind.ADD"),
             FieldDef("by", "bytes", "bytes", 'b""'),
+            # comparable, but kept out of a dataclass-generated hash; shown nowhere; with metadata
+            FieldDef("hf", "int", "int", "0", extra_args='hash=False, repr=False, metadata={"doc": "x"}'),
+            # not comparable although hash=True is requested
+            FieldDef("hn", "int", "int", "0", compare=False, extra_args="hash=True"),
             FieldDef("nc", "str", "str", '""', compare=False),
             FieldDef("ni", "int", "int", "7", init=False),
             FieldDef("nn", "int", "int", "1", init=False, compare=False),
@@ -318,6 +323,8 @@ def emit_source(perm_seed: int | None = None) -> str:
                 args.append("compare=False")
             if not f.init:
                 args.append("init=False")
+            if f.extra_args:
+                args.append(f.extra_args)
             if args == [f"default={f.default}"]:
                 body += f"    {f.name}: {f.ann} = {f.default}\n"
             elif args:
@@ -326,7 +333,25 @@ def emit_source(perm_seed: int | None = None) -> str:
                 body += f"    {f.name}: {f.ann}\n"
         body += c.extra_body
         out.append(body or "    pass\n")
+    out.append(SAME_NAME_TAIL)
     return "".join(out)
+
+
+# two different classes with one simple (and qualified) name in one module, as a class factory called
+# twice produces them; not part of the class table (they cannot be told apart by name)
+SAME_NAME_TAIL = '''
+
+def _make_same_name():
+    @dataclass(frozen=True)
+    class SameName(Base):
+        v: int = 0
+
+    return SameName
+
+
+SameNameA = _make_same_name()
+SameNameB = _make_same_name()
+'''
 
 
 def load(perm_seed: int | None = None) -> types.ModuleType:
